@@ -480,6 +480,10 @@ impl<'a> Tr<'a> {
             if let Some(t) = ctx.lookup(&n) {
                 return E { s: v(&n), ty: t };
             }
+            // a named integer constant of the crate
+            if let Some((t, _, _)) = self.db.consts.get(&format!("K_{}", n)) {
+                return E { s: format!("K_{}", n), ty: t.clone() };
+            }
             // a read-only register used as a value (first argument of read_register)
             if let Some(r) = self.db.regs.get(&n) {
                 if !r.is_bitflags {
@@ -504,6 +508,12 @@ impl<'a> Tr<'a> {
             }
             if item == "ADDR" {
                 return E { s: format!("{}_ADDR", tn), ty: Ty::U8 };
+            }
+        }
+        // an associated integer constant of an impl block
+        if let Some((t, _, _)) = self.db.consts.get(&format!("{}_{}", tn, item)) {
+            if t.is_unsigned() || matches!(t, Ty::I8 | Ty::I16 | Ty::I32) {
+                return E { s: format!("{}_{}", tn, item), ty: t.clone() };
             }
         }
         ctx.bail(at, &format!("path {}::{}", tn, item))
